@@ -71,16 +71,20 @@ impl<T> IpMatcher<T> {
         removed
     }
 
-    pub fn batch_remove(&mut self, ids: &HashSet<String>) -> bool {
-        self.no_matcher.batch_remove(ids);
+    /// Remove routes by ids, returns ids of routes really removed
+    pub fn batch_remove(&mut self, ids: &HashSet<String>) -> HashSet<String> {
+        let mut removed = self.no_matcher.batch_remove(ids);
 
         self.matchers.retain(|_, matcher| {
-            matcher.batch_remove(ids);
+            removed.extend(matcher.batch_remove(ids));
 
             !matcher.is_empty()
         });
 
-        self.no_matcher.is_empty() && self.matchers.is_empty()
+        // A route with several ip constraints is stored once per constraint but counted once
+        self.count -= removed.len();
+
+        removed
     }
 
     pub fn match_request(&self, request: &Request) -> Vec<Arc<Route<T>>> {
